@@ -7,3 +7,10 @@ package config
 //@   assumed
 //@   pure
 //@ end
+
+// Directories derived from the server's own configuration are trusted roots.
+//@ func GetLookupPath
+//@   assumed
+//@   pure
+//@   ensures uf("trustedDir", bool, result)
+//@ end
